@@ -10,11 +10,14 @@
 //   - ReadPat: the maximum number of bytes successive Read calls may return (cyclic; 0 = no limit), i.e.
 //     the transport chunking is an enumerated input, not an accident of scheduling.
 //   - Inject / CloseWrite: the harness forwards an arbitrary (tampered) byte string and then EOF.
+//   - WriteFaults: selected Write calls accept only a prefix of their data and return an error (transport
+//     fault after some bytes already left), an enumerated input as well.
 //
 // No clocks, no randomness. Blocking is only "reader waits for bytes or EOF".
 package dpipe
 
 import (
+	"errors"
 	"io"
 	"net"
 	"sync"
@@ -41,6 +44,20 @@ type Wire struct {
 	readPat      []int
 	patIdx       int
 	cuts         map[int]bool // absolute read offsets no single Read may cross
+	faults       map[int]int  // Write call number -> bytes accepted before the injected error
+}
+
+// ErrInjected is what a Write call selected by SetWriteFaults returns (think: write deadline exceeded).
+var ErrInjected = errors.New("dpipe: injected transport write fault (i/o timeout)")
+
+// SetWriteFaults makes selected Write calls fail: call number idx (0-based, counting every Write call on this
+// wire, the recorder has one - possibly empty - record per call) accepts only the first f[idx] bytes (clamped to
+// the length of the write), which are recorded and forwarded like any other bytes, and returns
+// (accepted, ErrInjected): a transport error after part of the data already left. Later calls work normally.
+func (w *Wire) SetWriteFaults(f map[int]int) {
+	w.mu.Lock()
+	w.faults = f
+	w.mu.Unlock()
 }
 
 func NewWire() *Wire {
@@ -93,6 +110,16 @@ func (w *Wire) Write(p []byte) (int, error) {
 	defer w.mu.Unlock()
 	// A write into a wire whose reader has gone still "succeeds" (it is recorded, nobody will read it): whether
 	// a peer's close is noticed by a writer is a matter of network timing in reality; here it must not be.
+	var fault error
+	if n, ok := w.faults[len(w.rec)]; ok {
+		if n > len(p) {
+			n = len(p)
+		}
+		if n < 0 {
+			n = 0
+		}
+		p, fault = p[:n], ErrInjected
+	}
 	cp := append([]byte(nil), p...)
 	w.rec = append(w.rec, cp)
 	fwd := p
@@ -117,7 +144,7 @@ func (w *Wire) Write(p []byte) (int, error) {
 		w.wclosed = true
 	}
 	w.cond.Broadcast()
-	return len(p), nil
+	return len(p), fault
 }
 
 func (w *Wire) Read(p []byte) (int, error) {
